@@ -6,6 +6,7 @@ pub mod inflight;
 pub mod model;
 pub mod view;
 
+pub mod fuzzglue;
 pub mod c11;
 pub mod c12;
 pub mod c13;
